@@ -310,6 +310,7 @@ def resolve(ad, aop, model, U):
     elif k == "remove_edges":
         es = [_edge_from(ad, s, model, U) for s in aop["edges"]]
         seen, out = set(), []
+        first_missing = bool(es) and ad.key_of(es[0]) not in model.edges
         for i, e in enumerate(es):
             key = ad.key_of(e)
             if key in seen:
@@ -318,9 +319,11 @@ def resolve(ad, aop, model, U):
                 continue  # a failing element only in first position (DESIGN C01: batches)
             seen.add(key)
             out.append(e)
-            if key not in model.edges:
-                break
+        # [missing, existing...]: rejected on its first element, so NOTHING may be applied --
+        # the existing hyperedges listed after it must keep their incidences too
         c["es"] = out
+        if first_missing:
+            c["rejected_batch_tail"] = len(out) - 1
     elif k == "remove_node":
         c["n"] = _node_from(aop["node"], model, U, ad)
         c["keep"] = aop["keep"] and ad.keep_edges_allowed
@@ -334,9 +337,7 @@ def resolve(ad, aop, model, U):
             if n not in model.nodes and i > 0:
                 continue
             out.append(n)
-            if n not in model.nodes:
-                break
-        c["ns"] = out
+        c["ns"] = out   # [missing, existing...] is rejected on its first element
         c["keep"] = aop["keep"] and ad.keep_edges_allowed
         if (c["keep"] and ad.empty_shrink_excluded and all(n in model.nodes for n in out)
                 and model.would_empty(out)):
@@ -681,6 +682,8 @@ def check_history(ad, case, ctx):
         else:
             n_reject += 1
             ctx.label("rejected:" + c["op"])
+            if c["op"] in ("remove_edges", "remove_nodes") and len(c.get("es") or c.get("ns") or []) > 1:
+                ctx.label("rejected-bulk-removal-with-existing-tail")
             obs = full_obs(ad, h, U, probes)
             d = diff_obs(cur_obs, obs)
             if d is not None:
